@@ -414,10 +414,13 @@ def _evaluate(args):
         except Exception as err:  # noqa: BLE001
             outcome["errors"].append(f"{rule}: analyser raised {type(err).__name__}: {err}")
             continue
-        new = [f for f in res.findings if props.in_scope(f.construct, scope) and f.construct not in baseline.get(rule, set())]
+        fresh = [f for f in res.findings if f.construct not in baseline.get(rule, set())]
+        new = [f for f in fresh if props.in_scope(f.construct, scope)]
         if new:
             outcome["fired"].append(rule)
             outcome["new_findings"].extend(f"{f.rule} {f.construct}" for f in new[:3])
+        elif fresh:
+            outcome.setdefault("fired_out_of_scope", []).append(rule)
     return outcome
 
 
@@ -476,6 +479,9 @@ def run_selftest(prop_id: str, prog: Program, jobs: Optional[int] = None) -> Dic
                 silent += 1
             matrix.append({"variant": var.name, "kind": "twin", "file": var.relpath, "fired": out["fired"], "errors": out["errors"][:2]})
         else:
+            if not out["fired"] and out.get("fired_out_of_scope"):
+                # the edit breaks another property's part of the code: not a case for this property
+                continue
             mutants += 1
             if out["fired"]:
                 flagged += 1
